@@ -235,7 +235,8 @@ func asBool(t iterator, v interface{}) bool {
 	case bool:
 		return v
 	case float64:
-		return v != 0
+		// a number is true if and only if it is neither zero nor NaN
+		return v != 0 && !math.IsNaN(v)
 	case string:
 		return v != ""
 	case query:
